@@ -131,6 +131,11 @@ def run(rep: Report) -> None:
     from . import c04 as _c04
 
     _c04.run(rep, only_variant="long")
+    # the function is that of the most recent step: compile, step again, compile again (same engine)
+    from .. import compile as _CP
+
+    _CP.check_recompile(rep, rep.prog, "Engine.to_function")
+
 
 
 def _step_equal_one(cfg):
